@@ -6,7 +6,7 @@
 From Coq Require Import List NArith ZArith Bool Lia.
 From PegtlV Require Import Base Decode Grammar Engine EngineFacts AtomFacts Mono Spec ExactSound Integer IntegerSpec.
 From PegtlV Require IntegerFacts.
-From PegtlV Require Import Regex RegexIncl RegexQuot Rfc3986 UriModel UriProof UriComplete UriCert2 UriComplete2H.
+From PegtlV Require Import Regex RegexIncl RegexQuot Rfc3986 UriModel UriProof UriComplete UriCert2 UriComplete2H UriCompleteF.
 From PegtlV.gen Require Import Uri_gen.
 Import ListNotations.
 Local Open Scope N_scope.
@@ -241,9 +241,9 @@ Proof.
   - (* ---------------- completeness ---------------- *)
     intros r K R nf Hc Hr. change (cc2 G MX (S n) r K) with (cc2_step G MX (cc2 G MX n) (nr G MX n) n r K) in Hc.
     unfold cc2_step in Hc. apply orb_true_iff in Hc. destruct Hc as [Hold|Hc].
-    { (* the fragment of UriComplete.cc *)
+    { (* the fragment of UriComplete.cc, certified by ccf *)
       rewrite !andb_true_iff in Hold. destruct Hold as [[_ Hnone] Hcc].
-      destruct (cc_sound G MX HG (S n) r K R nf Hcc Hr) as [_ [Cm _]]. split.
+      destruct (ccf_sound G MX HG (S n) r K R nf Hcc Hr) as [_ [Cm _]]. split.
       - intros d c Hk M. destruct (Cm d c (proj1 Hk) M) as [c' [E M']]. exists c'. split; [|exact M'].
         unfold EV. eapply lift_ov; [exact E | lia].
       - intros d c c' evs Hk H. destruct (nfol2 G MX (S n) r K); [discriminate | exact I]. }
@@ -321,7 +321,7 @@ Proof.
         exists c. split; [|exact Mk].
         apply (h_notat_cmp2 (EV n) B d r1 R1 K c T1 (EV_snd n r1 R1 nf1 E1)); [|exact Hk | exact Mk].
         intros w0 t Hb Mw Mkk.
-        pose proof (quot_auto_sound CF R1 K Empty Q1 w0 t (bytes_ok_app_l _ _ Hb) (bytes_ok_app_r _ _ Hb) Mw Mkk) as Me.
+        pose proof (quot2_sound CF R1 K Empty Q1 w0 t (bytes_ok_app_l _ _ Hb) (bytes_ok_app_r _ _ Hb) Mw Mkk) as Me.
         eapply empty_inv; eauto.
       * intros d c c' evs Hk H. destruct (EV_node_ok n d r c nd c' evs En Em H) as [e2 H2].
         cbn [nfol2]. rewrite En, Em, Eh, Ens, E1. simpl.
